@@ -7,7 +7,7 @@ task-creation models assume. -/
 namespace SciVerif.Tie
 -- PIN-NOT: Scipipe.Task_Execute Scipipe.FinalizePaths Scipipe.Task_writeAuditLogs
 -- functions the model relies on without an obligation of its own naming them (pinned by bin/mkpins):
--- PIN-ALSO: Scipipe.InPort_Recv Scipipe.InParamPort_Recv Scipipe.InPort_From Scipipe.InParamPort_From Scipipe.OutPort_To Scipipe.OutParamPort_To Scipipe.InPort_AddRemotePort Scipipe.OutPort_AddRemotePort Scipipe.InParamPort_AddRemotePort Scipipe.OutParamPort_AddRemotePort Scipipe.InPort_removeRemotePort Scipipe.OutPort_removeRemotePort Scipipe.BaseProcess_CloseAllOutPorts Scipipe.BaseProcess_CloseOutParamPorts Scipipe.getBufsize Scipipe.NewOutPort Scipipe.NewOutParamPort Scipipe.InParamPort_FromStr
+-- PIN-ALSO: Scipipe.InPort_Recv Scipipe.InParamPort_Recv Scipipe.InPort_From Scipipe.InParamPort_From Scipipe.OutPort_To Scipipe.OutParamPort_To Scipipe.InPort_AddRemotePort Scipipe.OutPort_AddRemotePort Scipipe.InParamPort_AddRemotePort Scipipe.OutParamPort_AddRemotePort Scipipe.InPort_removeRemotePort Scipipe.OutPort_removeRemotePort Scipipe.BaseProcess_CloseAllOutPorts Scipipe.BaseProcess_CloseOutParamPorts Scipipe.getBufsize Scipipe.NewOutPort Scipipe.NewOutParamPort Scipipe.InParamPort_FromStr Scipipe.BaseProcess_InitInPort Scipipe.BaseProcess_InitOutPort Scipipe.BaseProcess_InitInParamPort Scipipe.BaseProcess_InitOutParamPort Scipipe.Process_In Scipipe.Process_Out Scipipe.Process_InParam Scipipe.Process_OutParam Scipipe.NewProc Scipipe.Workflow_NewProc Scipipe.NewBaseProcess Scipipe.BaseProcess_InPort Scipipe.BaseProcess_OutPort Scipipe.BaseProcess_InParamPort Scipipe.BaseProcess_OutParamPort Scipipe.BaseProcess_InPorts Scipipe.BaseProcess_OutPorts Scipipe.BaseProcess_InParamPorts Scipipe.BaseProcess_OutParamPorts Scipipe.InPort_SetProcess Scipipe.OutPort_SetProcess Scipipe.InPort_Process Scipipe.OutPort_Process Scipipe.OutParamPort_Process Scipipe.InParamPort_Process
 open SciVerif.Generated
 
 def noEarlyExit (l : List Atom) : Bool := count (fun a => a.kind == .break_ || a.kind == .ret_ || a.kind == .goto_) l == 0
@@ -63,6 +63,7 @@ theorem generated_proc_sem_good_c04 : Proc.good procSem := by decide
 
 
 
+
 -- BEGIN PINS (written by bin/mkpins; do not edit by hand)
 /-- the Go functions this property's model and obligations were written against have exactly the
 pinned skeletons (SHA-256 prefix of the atom list) -/
@@ -72,35 +73,60 @@ theorem pinned_skeletons_c04 :
      ("Scipipe.BaseProcess_CloseAllOutPorts", "50efd798f96bd05b"),
      ("Scipipe.BaseProcess_CloseOutParamPorts", "b55e88685818f821"),
      ("Scipipe.BaseProcess_CloseOutPorts", "be86bddf379df111"),
+     ("Scipipe.BaseProcess_InParamPort", "762e516a21734441"),
+     ("Scipipe.BaseProcess_InParamPorts", "8d8b15053d2db87f"),
+     ("Scipipe.BaseProcess_InPort", "c48f106edaf85c15"),
+     ("Scipipe.BaseProcess_InPorts", "133f57ebe0b686e2"),
+     ("Scipipe.BaseProcess_InitInParamPort", "95bcc8146185d37d"),
+     ("Scipipe.BaseProcess_InitInPort", "9316d3eb7fe6dfdf"),
+     ("Scipipe.BaseProcess_InitOutParamPort", "014c85d604f145e4"),
+     ("Scipipe.BaseProcess_InitOutPort", "36e733e6aa5f2644"),
+     ("Scipipe.BaseProcess_OutParamPort", "63c94d8619dd6290"),
+     ("Scipipe.BaseProcess_OutParamPorts", "7dc497a7f8b09750"),
+     ("Scipipe.BaseProcess_OutPort", "c8e19a354c1d12ce"),
+     ("Scipipe.BaseProcess_OutPorts", "c28508c01ef2c5b0"),
      ("Scipipe.BaseProcess_receiveOnInParamPorts", "80f48a9a3ce80c41"),
      ("Scipipe.BaseProcess_receiveOnInPorts", "fc9972cf4f754181"),
      ("Scipipe.InParamPort_AddRemotePort", "3305ddf163d24713"),
      ("Scipipe.InParamPort_CloseConnection", "0b1304b246603bb9"),
      ("Scipipe.InParamPort_From", "91dcfa2a5059be8c"),
      ("Scipipe.InParamPort_FromStr", "82f932a5d19fe28f"),
+     ("Scipipe.InParamPort_Process", "9128e2db1c92bb3d"),
      ("Scipipe.InParamPort_Recv", "118dc198fdd7a631"),
      ("Scipipe.InParamPort_Send", "4622aa49739ca34b"),
      ("Scipipe.InPort_AddRemotePort", "2b23c2eefc8a18f5"),
      ("Scipipe.InPort_CloseConnection", "19d2a9417eaebec1"),
      ("Scipipe.InPort_From", "39357be56d46a631"),
+     ("Scipipe.InPort_Process", "5542a8a79e33c127"),
      ("Scipipe.InPort_Recv", "e48def2c3f368dd0"),
      ("Scipipe.InPort_Send", "62cb51bf3ab53084"),
+     ("Scipipe.InPort_SetProcess", "f6f6fdb502d7548a"),
      ("Scipipe.InPort_removeRemotePort", "7b8fd26a958e69e5"),
+     ("Scipipe.NewBaseProcess", "44bcb5795d2c0c17"),
      ("Scipipe.NewInParamPort", "987eb734aafc07fd"),
      ("Scipipe.NewInPort", "7ed3bbccc81e8535"),
      ("Scipipe.NewOutParamPort", "9934e9f3149ad37e"),
      ("Scipipe.NewOutPort", "fc9bc8de2927b9b5"),
+     ("Scipipe.NewProc", "87c3cac25a30f9dc"),
      ("Scipipe.OutParamPort_AddRemotePort", "d1ae040a8ec1308b"),
      ("Scipipe.OutParamPort_Close", "601ec3b610e0f2df"),
+     ("Scipipe.OutParamPort_Process", "b038149df3b6386e"),
      ("Scipipe.OutParamPort_Send", "001f43b441bb5996"),
      ("Scipipe.OutParamPort_To", "62d0c49416911f20"),
      ("Scipipe.OutPort_AddRemotePort", "711a5e501451ebce"),
      ("Scipipe.OutPort_Close", "82e44734c725a956"),
+     ("Scipipe.OutPort_Process", "5542a8a79e33c127"),
      ("Scipipe.OutPort_Send", "06287c7bef096378"),
+     ("Scipipe.OutPort_SetProcess", "f6f6fdb502d7548a"),
      ("Scipipe.OutPort_To", "39357be56d46a631"),
      ("Scipipe.OutPort_removeRemotePort", "7b8fd26a958e69e5"),
+     ("Scipipe.Process_In", "5c55db4a17c5e657"),
+     ("Scipipe.Process_InParam", "c8e48924f704b354"),
+     ("Scipipe.Process_Out", "a8336ddcad83e773"),
+     ("Scipipe.Process_OutParam", "c9bda6ebf69a5f59"),
      ("Scipipe.Process_Run", "05880ea16e590fb1"),
      ("Scipipe.Process_createTasks", "8c856d9ef4492f5d"),
+     ("Scipipe.Workflow_NewProc", "0c40600b4fc86df2"),
      ("Scipipe.getBufsize", "65b7d390dc0d0c72"),
      ("Scipipe.taskQueue_NextTaskDone", "749f6263d8a0c13f")] = true := by decide
 -- END PINS
